@@ -439,8 +439,19 @@ func applyMetricsOperatorOnSegments(mQuery *structs.MetricsQuery, allSearchReqes
 			continue
 		}
 
+		// The tags tree of this directory is still held in memory when one of the requests is for an open
+		// segment (only those carry a Mid). Look the series up through that request: a series that started
+		// reporting after the last flush of the tags tree is not in the files of the directory yet.
+		tagsTreeReq := allMSearchReqs[0]
+		for _, mSeg := range allMSearchReqs {
+			if mSeg.Mid != "" {
+				tagsTreeReq = mSeg
+				break
+			}
+		}
+
 		err = tagstree.SearchAndInsertTSIDs(mQuery, allMatchedTsids, metricNames, tthBaseDir,
-			allMSearchReqs[0], qid)
+			tagsTreeReq, qid)
 		if err != nil {
 			mRes.AddError(err)
 			continue
